@@ -25,7 +25,7 @@ type Property struct {
 	Assumptions []string
 	NotDecided  []string
 	Replay      func(p *Program, r *OblResult, dir string) *ReplayOutcome
-	Emb         []string // nested struct types to model as separate objects
+	Emb         []string               // nested struct types to model as separate objects
 	Select      func(name string) bool // which obligations of the shared units this property's check discharges (nil = all)
 	Siblings    string                 // which checks discharge the obligations left out by Select
 }
@@ -336,24 +336,24 @@ func checkMain(args []string) int {
 		"violations":  len(violations),
 		"assumptions": assume,
 		"coverage": map[string]interface{}{
-			"obligations":              nObl,
-			"discharged":               nDis,
-			"checker_cmd":              "govc check " + id + " --tier " + tier + " (go/ssa -> guarded VCs -> z3-new 5.1.0 | z3 4.8.12 | cvc5 1.0.3, first unsat wins)",
-			"trusted_base":             []string{"go/packages+go/types+go/ssa (x/tools v0.29.0) give a faithful SSA of /repo", "govc SSA->VC translation and memory model (DESIGN.md 2.3)", "z3 / cvc5 soundness of unsat", "mathematical integers (no overflow)", "partial correctness (termination not proved)"},
-			"functions_under_contract": fns,
-			"per_backend":              perBackend,
-			"solver_ms":                solverMs,
-			"load_ms":                  prog.loadMs,
-			"units":                    len(units),
-			"canaries":                 map[string]int{"run": nCan, "not_provable_as_required": nCanOK},
-			"vacuity_checks":           map[string]int{"run": nVac, "satisfiable": nVacOK},
-			"known_findings_hit":       knownHit,
+			"obligations":                 nObl,
+			"discharged":                  nDis,
+			"checker_cmd":                 "govc check " + id + " --tier " + tier + " (go/ssa -> guarded VCs -> z3-new 5.1.0 | z3 4.8.12 | cvc5 1.0.3, first unsat wins)",
+			"trusted_base":                []string{"go/packages+go/types+go/ssa (x/tools v0.29.0) give a faithful SSA of /repo", "govc SSA->VC translation and memory model (DESIGN.md 2.3)", "z3 / cvc5 soundness of unsat", "mathematical integers (no overflow)", "partial correctness (termination not proved)"},
+			"functions_under_contract":    fns,
+			"per_backend":                 perBackend,
+			"solver_ms":                   solverMs,
+			"load_ms":                     prog.loadMs,
+			"units":                       len(units),
+			"canaries":                    map[string]int{"run": nCan, "not_provable_as_required": nCanOK},
+			"vacuity_checks":              map[string]int{"run": nVac, "satisfiable": nVacOK},
+			"known_findings_hit":          knownHit,
 			"sibling_obligations_assumed": map[string]interface{}{"count": nSibling, "discharged_by": prop.Siblings},
-			"solver_disagreements":     disagreements,
-			"contract_files":           relPaths(prog.db.Files),
-			"assume_scan":              prog.db.Scan,
-			"samples":                  samples,
-			"explanation":              "every obligation is an SMT query generated from the SSA of /repo's current source and the //@ contracts; discharged = unsat from at least one solver",
+			"solver_disagreements":        disagreements,
+			"contract_files":              relPaths(prog.db.Files),
+			"assume_scan":                 prog.db.Scan,
+			"samples":                     samples,
+			"explanation":                 "every obligation is an SMT query generated from the SSA of /repo's current source and the //@ contracts; discharged = unsat from at least one solver",
 		},
 	}
 	b, _ := json.MarshalIndent(ev, "", " ")
